@@ -49,7 +49,7 @@ static void Node_New(var self, var args) { struct Node* n = self; n->id = c_int(
 static void Node_Del(var self) {
   struct Node* n = self;
   long long id = (n->canary == NODE_CANARY && n->id > 0 && n->id < MAXID) ? n->id : -1;
-  if (nfin < MAXID) fin_ids[nfin++] = id;
+  if (nfin < MAXID && id < 1000) fin_ids[nfin++] = id;      /* bulk / cycle Nodes (ids >= 1000) are counted, not listed */
   if (id > 0) fin_count[id]++;
   n->canary = 0;
 }
